@@ -5,11 +5,12 @@ open Wire Model.Merge
 
 /-
 requests:   <op> <mode> <shape>
-  op     merge | rows | ref
+  op     merge | quarters | rows | ref | dangling | tails | load (= load_score_as_part: merge with mode voice; the mode token is ignored)
   mode   voice | staff | auto | anything else (rejected like the ValueError of the code)
   shape  one <tree> | many <n> <tree>*
-  tree   P <pid> <nqd> <qd>* <nelems> <elem>*  |  G <n> <tree>*
-  elem   <oid> <className> <start> <end|-> <voice|-> <staff|-> <pitch|-> <tiePrev 0|1> <nchain> <oid>*
+  tree   P <pid> <nqd> <qd>* <nelems> <elem>* <ntails> <elem>*  |  G <n> <tree>*
+         (tails: the objects that only have an end; their <start> is 0 and not used)
+  elem   <oid> <className> <start> <end|-> <voice|-> <staff|-> <pitch|-> <tiePrev 0|1> <nchain> <oid>* <nrefs> <oid>*
 A part with other than exactly one quarter duration reaches the model with divs = 0 (rejected unless it
 is the single part that is returned as is).
 -/
@@ -31,9 +32,10 @@ def pElem : P Elem := do
   let pi ← opt int
   let tp ← bool
   let ch ← list nat
+  let rf ← list nat
   if Gen.classNames.contains cn then
     pure { oid := oid, cls := classId cn, start := st, stop := en, voice := v, staff := sf,
-           pitch := pi, tiePrev := tp, chain := ch }
+           pitch := pi, tiePrev := tp, chain := ch, refs := rf }
   else P.fail
 
 partial def pTree : P Tree := do
@@ -43,10 +45,8 @@ partial def pTree : P Tree := do
     let pid ← nat
     let qds ← list nat
     let es ← list pElem
-    let d := match qds with
-      | [d] => d
-      | _ => 0
-    pure (.part { pid := pid, divs := d, elems := es })
+    let tl ← list pElem
+    pure (.part { pid := pid, divs := divsOf qds, elems := es, tails := tl })
   | "G" =>
     let cs ← list pTree
     pure (.group cs)
@@ -61,7 +61,12 @@ def pShape : P Shape := do
 
 def fmtElem (e : Elem) : String :=
   fmtTuple [fmtNat e.oid, Gen.classNames.getD e.cls "?", fmtNat e.start, fmtOpt fmtNat e.stop,
-            fmtOpt fmtNat e.voice, fmtOpt fmtNat e.staff]
+            fmtOpt fmtNat e.voice, fmtOpt fmtNat e.staff, fmtList fmtNat e.refs]
+
+/-- an object without start: identity, class, end, voice, staff, references -/
+def fmtTail (e : Elem) : String :=
+  fmtTuple [fmtNat e.oid, Gen.classNames.getD e.cls "?", fmtOpt fmtNat e.stop,
+            fmtOpt fmtNat e.voice, fmtOpt fmtNat e.staff, fmtList fmtNat e.refs]
 
 def rowLe (a b : Row) : Bool :=
   a.onset < b.onset || (a.onset == b.onset &&
@@ -82,6 +87,11 @@ def resultElems : Result → List Elem
   | .same p => p.elems
   | .merged _ es => es
 
+def fmtResult : Option Result → String
+  | none => "err"
+  | some (.same p) => "same " ++ fmtNat p.pid
+  | some (.merged L es) => fmtTuple [fmtNat L, fmtList fmtElem es, fmtList fmtNat (points es)]
+
 def handle (ts : List String) : String :=
   match ts with
   | op :: mode :: rest =>
@@ -90,6 +100,16 @@ def handle (ts : List String) : String :=
     | some sh =>
       match op with
       | "ref" => fmtList fmtSound ((refSound (iterParts sh)).mergeSort soundLe)
+      | "tails" =>
+        match parseMode mode with
+        | none => "err"
+        | some m =>
+          match merge m sh with
+          | some (.merged _ _) =>
+            fmtList fmtTail ((mergedTails m (iterParts sh)).mergeSort fun a b => a.oid ≤ b.oid)
+          | some (.same _) => "same"
+          | none => "err"
+      | "load" => fmtResult (loadScoreAsPart sh)
       | _ =>
         match parseMode mode with
         | none => "err"
@@ -98,16 +118,19 @@ def handle (ts : List String) : String :=
           | none => "err"
           | some r =>
             match op with
-            | "merge" =>
-              match r with
-              | .same p => "same " ++ fmtNat p.pid
-              | .merged L es =>
-                fmtTuple [fmtNat L, fmtList fmtElem es, fmtList fmtNat (points es)]
+            | "merge" => fmtResult (some r)
             | "quarters" =>
               match r with
               | .same _ => "same"
               | .merged L es => fmtList (fun _ => fmtNat L) (points es)
             | "rows" => fmtList fmtRow ((rows (resultElems r)).mergeSort rowLe)
+            | "dangling" =>
+              match r with
+              | .same _ => "same"
+              | .merged _ es =>
+                fmtList (fun x => fmtTuple [fmtNat x.1, fmtNat x.2])
+                  ((dangling (es ++ mergedTails m (iterParts sh))).mergeSort fun a b =>
+                    a.1 < b.1 || (a.1 == b.1 && a.2 ≤ b.2))
             | _ => "bad-request"
   | _ => "bad-request"
 
